@@ -22,6 +22,7 @@ import (
 
 	"github.com/sourcegraph/zoekt"
 	"github.com/sourcegraph/zoekt/gitindex"
+	"github.com/sourcegraph/zoekt/ignore"
 	"github.com/sourcegraph/zoekt/index"
 	"github.com/sourcegraph/zoekt/query"
 	"github.com/sourcegraph/zoekt/search"
@@ -65,6 +66,8 @@ func baseContents() []string {
 		cs = append(cs, fmt.Sprintf("content number %d\nsecond line %d\n", i, i*i))
 	}
 	cs = append(cs, "") // empty file
+	// 10..12: ignore files (plain prefixes, a comment, a leading slash)
+	cs = append(cs, "dir/sub\n# comment\nREADME\n", "/dir/f\nz\n", "e2\n# x\n")
 	return cs
 }
 
@@ -233,7 +236,22 @@ func pickIndexed(r *gen.Rand, branches []string) []string {
 func mutate(r *gen.Rand, t map[string]ent, b string, branches []string, state map[string]map[string]ent, prev []map[string]ent, st *stepRec) string {
 	keys := sortedKeys(t)
 	other := gen.Pick(r, branches)
-	switch r.Intn(12) {
+	switch r.Intn(13) {
+	case 12: // the ignore file appears, changes or goes away
+		e, ok := t[ignore.IgnoreFile]
+		switch {
+		case !ok && !r.Chance(1, 3):
+			return "noop"
+		case !ok:
+			t[ignore.IgnoreFile] = ent{Content: 10 + r.Intn(3), Mode: "100644"}
+			return "ignore-add"
+		case r.Bool():
+			delete(t, ignore.IgnoreFile)
+			return "ignore-remove"
+		default:
+			t[ignore.IgnoreFile] = ent{Content: 10 + (e.Content+1)%3, Mode: "100644"}
+			return "ignore-modify"
+		}
 	case 11: // a submodule link appears, changes, or turns into a file; a file turns into a submodule link
 		p := gen.Pick(r, allPaths)
 		e, ok := t[p]
@@ -410,7 +428,7 @@ func (rn *runner) run(h history, id string) {
 	os.MkdirAll(indexDir, 0o755)
 	g := gen.NewGitRepo(repoDir)
 	detail := gen.Detail(h)
-	inModel := h.Kind == "model"
+	inModel := true // every generated kind is inside the Lean model (ignore files since the model has `Ignore`)
 	emit := func(c gen.Case) {
 		c.Detail = detail
 		if !inModel {
@@ -418,7 +436,17 @@ func (rn *runner) run(h history, id string) {
 		}
 		rn.w.Emit(c)
 	}
-	emit(gen.Case{In: "reset", Impl: "ok", Class: "history:" + h.Kind})
+	emit(gen.Case{In: fmt.Sprintf("reset %d", rn.paths.ID(ignore.IgnoreFile)), Impl: "ok", Class: "history:" + h.Kind})
+	// every path of the history: the universe over which ignore files are tabulated for the model
+	universe := map[string]bool{}
+	for _, st := range h.Steps {
+		for _, c := range st.Commits {
+			for p := range c.Tree {
+				universe[p] = true
+			}
+		}
+	}
+	igDefined := map[string]bool{}
 
 	heads := map[string][]gen.GitEntry{} // branch => leaves of its head tree, from git ls-tree
 	contentOf := map[string][]byte{}     // blob hash => content (what the harness wrote)
@@ -449,6 +477,24 @@ func (rn *runner) run(h history, id string) {
 				names = append(names, "HEAD")
 				heads["HEAD"] = leaves
 			}
+			for _, l := range leaves {
+				if l.Path != ignore.IgnoreFile || l.Mode == "160000" || igDefined[l.Hash] {
+					continue
+				}
+				igDefined[l.Hash] = true
+				m, err := ignore.ParseIgnoreFile(bytes.NewReader(contentOf[l.Hash]))
+				if err != nil {
+					panic(err)
+				}
+				var ids []int
+				for p := range universe {
+					if m.Match(p) {
+						ids = append(ids, rn.paths.ID(p))
+					}
+				}
+				sort.Ints(ids)
+				emit(gen.Case{In: fmt.Sprintf("igdef %d %s", rn.blobs.ID(l.Hash), gen.NatList(ids)), Impl: "ok"})
+			}
 			for _, nm := range names {
 				var parts []string
 				for _, l := range leaves {
@@ -457,7 +503,7 @@ func (rn *runner) run(h history, id string) {
 				emit(gen.Case{In: fmt.Sprintf("commit %d %s", rn.branches.ID(nm), joinOr(parts, ",")), Impl: "ok"})
 				ignoreOf[nm] = nil
 				for _, l := range leaves {
-					if l.Path == ".sourcegraph/ignore" {
+					if l.Path == ignore.IgnoreFile && l.Mode != "160000" {
 						ignoreOf[nm] = strings.Split(string(contentOf[l.Hash]), "\n")
 					}
 				}
